@@ -79,8 +79,9 @@ Proof. exact C13_ctor_bound. Qed.
 (* non-vacuity: 33 = 2*16+1 initial values (more than the default capacity 16): the constructor of the
    pool model gives capacity 33, not 16 *)
 Example C13_constructor_capacity_covers_size_example :
-  build (VInt 0 0) CStack (repeat (VInt 0 5) 33) = Ret (OStk 33 (repeat (VInt 0 5) 33)) /\
-  build (VInt 0 0) CStack (repeat (VInt 0 5) 2) = Ret (OStk 16 (repeat (VInt 0 5) 2)).
+  let d := default_stack_cap in
+  build (VInt 0 0) CStack (repeat (VInt 0 5) (2 * d + 1)) = Ret (OStk (2 * d + 1) (repeat (VInt 0 5) (2 * d + 1))) /\
+  build (VInt 0 0) CStack (repeat (VInt 0 5) 2) = Ret (OStk (Nat.max d 2) (repeat (VInt 0 5) 2)).
 Proof. split; vm_compute; reflexivity. Qed.
 
 Theorem C13_histories_compose :
@@ -172,7 +173,7 @@ Proof. exact pool_stack_step. Qed.
 Example C13_pool_example :
   run (VInt 0 0) [] [NewSlice [VInt 0 1; VInt 0 2]; FromArray CStack 0; Push 1 (VInt 0 3); Pop 1;
                      MakeCap CStack 1; Push 2 (VInt 0 7); Push 2 (VInt 0 8)] =
-    [OSlice [VInt 0 1; VInt 0 2]; OStk 16 [VInt 0 1; VInt 0 2]; OStk 1 [VInt 0 7]] /\
+    [OSlice [VInt 0 1; VInt 0 2]; OStk (Nat.max default_stack_cap 2) [VInt 0 1; VInt 0 2]; OStk 1 [VInt 0 7]] /\
   snd (step (VInt 0 0) [OStk 1 [VInt 0 7]] (Push 0 (VInt 0 8))) = RPanic /\
   snd (step (VInt 0 0) [OStk 1 []] (Pop 0)) = RPanic.
 Proof. repeat split; vm_compute; reflexivity. Qed.
@@ -191,15 +192,16 @@ Theorem C13_pool_invariant_is_inductive :
   forall (zero : val) (ops : list op) (p : pool), pool_ok p -> pool_ok (run zero p ops).
 Proof. exact run_pool_ok. Qed.
 
-(* non-vacuity: a history that builds stacks in every possible way (Make, MakeWithCapacity, MakeFromArray of 17
-   values — one more than the default capacity —, MakeFromSequence of a stack), pushes past capacity, pops,
+(* non-vacuity: a history that builds stacks in every possible way (Make, MakeWithCapacity, MakeFromArray of one
+   value more than the default capacity, MakeFromSequence of a stack), pushes past capacity, pops,
    clears; the stacks of the final pool with their capacities *)
 Example C13_pool_invariant_example :
-  let ops := [NewSlice (map (VInt 0) [1; 2; 3; 4; 5; 6; 7; 8; 9; 10; 11; 12; 13; 14; 15; 16; 17]%Z); FromArray CStack 0;
+  let d := default_stack_cap in
+  let ops := [NewSlice (map (fun n => VInt 0 (Z.of_nat n)) (seq 1 (S d))); FromArray CStack 0;
               MakeCap CStack 1; Push 2 (VInt 0 7); Push 2 (VInt 0 8); FromSeq CStack 2 []; MakeEmpty CStack;
-              Push 4 (VInt 0 1); Push 1 (VInt 0 18); Pop 1; RemoveAll 3] in
+              Push 4 (VInt 0 1); Push 1 (VInt 0 (-1)); Pop 1; RemoveAll 3] in
   map (fun o => match o with OStk cap l => Some (cap, length l) | _ => None end) (run (VInt 0 0) [] ops) =
-    [None; Some (17, 16); Some (1, 1); Some (16, 0); Some (16, 1)] /\
+    [None; Some (S d, d); Some (1, 1); Some (d, 0); Some (d, 1)] /\
   pool_ok (run (VInt 0 0) [] ops).
 Proof. split; [vm_compute; reflexivity|]. apply C13_pool_invariant_is_inductive. constructor. Qed.
 
